@@ -30,8 +30,8 @@ TEST_DIRS_THOROUGH = TEST_DIRS_QUICK + [
 
 # attempts per program in the quick tier (the plan is shuffled with the seed,
 # so a prefix is an unbiased sample of trans x node x option)
-QUICK_QUOTA = {"generic": 7000, "nemo": 6000, "lfric-multikernel-dm": 5786,
-               "lfric-builtin-nodm": 6000, "gocean-two-kernels": 5000}
+QUICK_QUOTA = {"generic": 5000, "nemo": 5000, "lfric-multikernel-dm": 4000,
+               "lfric-builtin-nodm": 4000, "gocean-two-kernels": 4000}
 CHUNK = 350
 
 
